@@ -237,6 +237,9 @@ def run(chk: Check, ctx: Any) -> None:
     memo_rules(chk, ctx, "C11-R5")
     from .history import history_rule
     history_rule(chk, ctx, "C11-R7")
+    chk.rule("C11-R8", "no order-visible iteration over a set of strings or enum members (hash randomisation: the order differs between processes)")
+    from .hashorder import hash_order_rule
+    hash_order_rule(chk, ctx, "C11-R8")
 
 
 
